@@ -34,6 +34,15 @@ GARBAGE = ["garbage", "", " ", "  ", "\t", "= =", "0 = ", "  0 = Q 1 2", "[Foo]"
            "  0 = S 12 5", "  0 = S 22 5", "  0 = S  5", "  0 = TS  4", "  0 = B  5"]
 
 
+VARIANTS = {
+    "instrument": ["  5 =  N 0 0", "  5  = N 0 0", "  5 = N  0 0", "  5 = N 0  0", "  5 =\tN 0 0", "  5 = S  2 9", "  5 =  S 2 9", "  5 =  E solo", "  5 = E  solo",
+                   "  5 = n 0 0", "  5 = s 2 9", "5=N 0 0", "  5 = N0 0"],
+    "sync": ["  0 =  B 120000", "  0 = B  120000", "  0  = TS 4", "  0 = TS  4", "  0 = TS 4  2", "  0 =  A 5", "  0 = b 120000", "  0 = ts 4", "0=B 5"],
+    "events": ["  900 =  E \"lyric ip-\"", "  900 = E  \"section x\"", "  900  = E \"y\"", "  900 =\tE \"lyric z\"", "  900 = e \"lyric z\"",
+               "  900 = E \"lyric q\"  x", "900=E \"t\""],
+}
+
+
 def required(tier):
     return ["inserted:first", "inserted:last", "inserted:between_N_lines_of_one_tick", "section:sync", "section:events", "section:instrument",
             "family:blank", "family:foreign", "family:unsupported_index", "family:header_like", "claimed_by:NoteEvent", "claimed_by:StarPowerEvent",
@@ -192,8 +201,14 @@ def mutate(rng, rec, sections, mode):
             # (foreign here, must-reject for every kind of this section by the oracle) — the same text is then seen
             # both as an unparsable and as a parsable line within one parse and across parses of one process
             foreign = [ln for n2, b2 in sections if kind_of(n2) not in (None, k) for ln in b2[:40] if ORACLE[k](ln) == recog.REJECT]
+            variants = [v for v in VARIANTS[k] if not claimants(kinds_of_section(k), v)]
             for _ in range(cnt):
-                if foreign and rng.random() < 0.35:
+                if variants and rng.random() < 0.12:
+                    # blank/letter-case variants of real lines: my oracle says nothing about them, but if no kind of THIS tree
+                    # claims the line, then by the tree's own standard it is an unclaimed line like any other
+                    ln = rng.choice(variants)
+                    rec.cls("inserted:blank_variant_unclaimed_by_this_tree")
+                elif foreign and rng.random() < 0.35:
                     ln = rng.choice(foreign)
                     rec.cls("inserted:copy_of_a_line_valid_elsewhere_in_the_chart")
                 else:
